@@ -1,7 +1,7 @@
 CONSTANTS
   Tier = "thorough"
   Bug = "none"
-  MaxH = 4
+  MaxH = 3
   NInst = 3
 INIT Init
 NEXT Next
